@@ -37,9 +37,23 @@ RULE = ("one case = a pool of 5 named variables (names: strings / ints / tuples;
         "module helper, both operand orders, self-operands, 0/0 and x/0), scalars, n-ary product and "
         "sum-product, associativity, identity factor, equality under axis and state permutation against "
         "one-cell / renamed-state / different-scope variants, a 6-step random history mixing in-place and "
-        "out-of-place calls, and the FactorDict wrappers. non-trivial: some factor has >= 2 variables and some "
+        "out-of-place calls, a 10-step (thorough 16) ONE-OBJECT sequence (in-place calls change the object, "
+        "out-of-place calls with fresh arguments leave it alone and their results are re-read after every later "
+        "in-place call, observers scope/get_cardinality/assignment/get_value/str/repr/hash/== in between, partners "
+        "reused), and the FactorDict wrappers. Boundary classes: value profiles normal / mixed 1e-12..1e8 inside one "
+        "table / all-tiny 1e-12 / all-huge 1e12 / extreme 1e-250..1e250 (f0) / python ints / two-valued with ties; "
+        "scalars 0, 0.0, 1e-12, 1e8, multi-digit; variables argument as list / tuple / set / numpy array, "
+        "[] / one / all variables; state names that are falsy or unusual ('', 0, None, (), False/True, 2.5, -1), one "
+        "state list shared by all variables, default labels without state_names; a variable named ''; a "
+        "cardinality of 10-12. non-trivial: some factor has >= 2 variables and some "
         "variable >= 2 states; distinct by digest of the whole spec")
 ASSUMPTIONS = ["the dictionary reference (textbook definitions, 0/0=0, x/0=inf) is the specification",
+               "tables whose magnitudes are far from 1 contain only values >= 0 and non-negative scalars (nothing "
+               "cancels) and are compared with a purely relative tolerance of 1e-9; extreme exponents (+-250) sit in "
+               "one operand only, so every finite expression is finite in any evaluation order; overflow to inf / "
+               "underflow to 0 of a single IEEE multiplication is the same in the reference",
+               "observers other than scope / get_cardinality / == are not judged (only required not to modify the "
+               "factor); a generator as `variables` argument is not 'list, array-like' and is not used",
                "operands sharing a variable are built with the same state list (as the statement requires)",
                "comparisons at atol=rtol=1e-9 in float64; equality expectations are only asserted when every cell "
                "is at least 2x inside or outside atol=1e-8 + rtol=1e-5",
@@ -69,7 +83,17 @@ MANIFEST = {
                  "replicated across PYTHONHASHSEED values and the numpy / torch backends",
 }
 
-SCALARS = [0, 1, 2, 3, 0.5, 2.5, -1.5]
+SCALARS = [0, 1, 2, 3, 0.5, 2.5, -1.5, 0.0, 1e-12, 1e8, 12345.678]
+SCALARS_NONNEG = [0, 0.0, 1, 2, 3, 0.5, 2.5, 1e-12, 7e-9, 1e8, 12345.678]      # magnitude profiles: no cancellation
+PROFILES = ["normal"] * 11 + ["mixed"] * 4 + ["tiny", "huge", "extreme", "ints", "dups"]
+
+
+def _fsum(xs):
+    xs = list(xs)
+    try:
+        return math.fsum(xs)
+    except (OverflowError, ValueError):          # intermediate overflow / inf-inf: IEEE answer of a plain sum
+        return float(sum(xs))
 
 
 # =============================================================================== oracle
@@ -88,7 +112,7 @@ class OF:
         return all(math.isfinite(x) for x in self.tab.values())
 
     def total(self):
-        return math.fsum(self.tab.values())
+        return _fsum(self.tab.values())
 
 
 def _assignments(states):
@@ -163,7 +187,7 @@ def o_eliminate(A, S, op):
     for k, x in A.tab.items():
         kk = frozenset(p for p in k if p[0] not in S)
         groups.setdefault(kk, []).append(x)
-    return OF(st, {k: (math.fsum(xs) if op == "sum" else max(xs)) for k, xs in groups.items()})
+    return OF(st, {k: (_fsum(xs) if op == "sum" else max(xs)) for k, xs in groups.items()})
 
 
 def o_reduce(A, asg):
@@ -205,12 +229,31 @@ def o_eq(A, B):
 
 
 # ============================================================================ generator
-def _rand_values(rng, size, zero_p):
+def _scale(rng, profile):
+    if profile == "mixed":
+        return 10.0 ** rng.choice([-12, -9, -6, -3, 0, 0, 3, 6, 8])
+    if profile == "tiny":
+        return 10.0 ** rng.choice([-12, -11, -10, -9])
+    if profile == "huge":
+        return 10.0 ** rng.choice([8, 9, 10, 12])
+    if profile == "extreme":                      # +-250: one extreme operand never overflows a finite expression
+        return 10.0 ** rng.choice([-250, -150, -40, 0, 40, 150, 250])
+    return 1.0
+
+
+def _rand_values(rng, size, zero_p, profile="normal"):
     if rng.random() < 0.04:
         return [1.0] * size
-    vals = [0.0 if rng.random() < zero_p else rng.choice(gen.GRID) * (0.5 + rng.random()) for _ in range(size)]
+    if profile == "ints":                          # python ints, not floats
+        vals = [0 if rng.random() < zero_p else rng.randint(1, 5) for _ in range(size)]
+    elif profile == "dups":                        # two distinct values only: ties everywhere
+        two = [rng.choice(gen.GRID), rng.choice(gen.GRID) * 2]
+        vals = [0.0 if rng.random() < zero_p else rng.choice(two) for _ in range(size)]
+    else:
+        vals = [0.0 if rng.random() < zero_p else rng.choice(gen.GRID) * (0.5 + rng.random()) * _scale(rng, profile)
+                for _ in range(size)]
     if all(x == 0 for x in vals):
-        vals[rng.randrange(size)] = rng.choice(gen.GRID)
+        vals[rng.randrange(size)] = 1 if profile == "ints" else rng.choice(gen.GRID)
     return vals
 
 
@@ -221,12 +264,29 @@ def _size(card, vs):
     return n
 
 
-def _rand_factor(rng, card, vs, zero_p=None):
+def _rand_factor(rng, card, vs, zero_p=None, profile="normal"):
     vs = list(vs)
     rng.shuffle(vs)
     if zero_p is None:
         zero_p = rng.choice([0.0, 0.1, 0.25, 0.4])
-    return {"vars": vs, "values": _rand_values(rng, _size(card, vs), zero_p)}
+    return {"vars": vs, "values": _rand_values(rng, _size(card, vs), zero_p, profile)}
+
+
+STATE_KINDS = gen.STATE_KINDS + ("falsy", "shared")
+
+
+def _states_for(rng, v, k, kind):
+    """gen.state_names_for plus: falsy / unusual names ('', 0, None, (), False ...) and one list shared by all variables."""
+    if kind == "falsy":
+        if k == 2 and rng.random() < 0.3:
+            return [False, True]
+        base = ["", 0, None, (), "x", 2.5, -1]
+        if k <= len(base):
+            return rng.sample(base, k)
+        kind = "str"
+    if kind == "shared":
+        return (["lo", "mid", "hi", "top"] + [f"s{i}" for i in range(4, k)])[:k]
+    return gen.state_names_for(rng, v, k, kind)
 
 
 def _subset(rng, vs, lo=0, hi=None):
@@ -272,6 +332,8 @@ def _gen_unary(rng, card, f):
         rng.shuffle(S)
     elif mode < 0.22:
         S = []
+    elif mode < 0.32:
+        S = _subset(rng, vs, 1, 1)                     # exactly one variable
     else:
         S = _subset(rng, vs, 1 if vs else 0)
     cut = rng.randint(0, len(S))
@@ -281,7 +343,8 @@ def _gen_unary(rng, card, f):
         R = list(vs)
         rng.shuffle(R)
     return {"S": S, "cut": cut, "M": _subset(rng, vs, 0), "R": [[v, rng.randrange(card[v])] for v in R],
-            "S2": [v for v in _subset(rng, vs, 0) if v not in R]}
+            "S2": [v for v in _subset(rng, vs, 0) if v not in R],
+            "forms": [rng.choice(["list", "list", "tuple", "set", "array"]) for _ in range(4)]}
 
 
 def _gen_eq(rng, card, f):
@@ -299,7 +362,7 @@ def _gen_eq(rng, card, f):
             "rvar": rng.randrange(len(vs)) if vs else None, "rstate": rng.random()}
 
 
-def _gen_chain(rng, pool, card, factors, steps=6):
+def _gen_chain(rng, pool, card, factors, steps=6, scalars=SCALARS):
     scope = list(factors[0]["vars"])
     out = []
     for _ in range(steps):
@@ -319,7 +382,7 @@ def _gen_chain(rng, pool, card, factors, steps=6):
         elif op == "divide":
             st["g"] = _rand_factor(rng, card, _subset(rng, scope, 0), zero_p=rng.choice([0.0, 0.0, 0.2]))
         elif op == "scalar":
-            st["c"] = rng.choice(SCALARS)
+            st["c"] = rng.choice(scalars)
             st["kind"] = rng.choice(["mul", "add"])
         elif op in ("marg", "max"):
             S = _subset(rng, scope, 1)
@@ -329,6 +392,49 @@ def _gen_chain(rng, pool, card, factors, steps=6):
             R = _subset(rng, scope, 1, 2)
             st["R"] = [[v, rng.randrange(card[v])] for v in R]
             scope = [v for v in scope if v not in R]
+        out.append(st)
+    return out
+
+
+OBSERVERS = ["scope", "get_cardinality", "assignment", "str", "hash", "eq", "get_value"]
+
+
+def _gen_reuse(rng, pool, card, factors, steps, scalars):
+    """ONE factor object serves the whole sequence: in-place calls change it, out-of-place calls (different
+    arguments every time) leave it alone and their results are kept and re-read later, observers in between."""
+    scope = list(factors[0]["vars"])
+    out = []
+    for _ in range(steps):
+        r = rng.random()
+        mode = "observe" if r < 0.22 else ("inplace" if r < 0.58 else "outofplace")
+        if mode == "observe":
+            out.append({"mode": mode, "what": rng.choice(OBSERVERS)})
+            continue
+        ops = ["product", "sum", "divide", "scalar", "scalar", "norm"]
+        if scope:
+            ops += ["marg", "max", "reduce", "reduce"]
+        if not scope and mode == "inplace":
+            ops = ["product", "product", "sum", "scalar"]
+        op = rng.choice(ops)
+        st = {"mode": mode, "op": op, "inplace": mode == "inplace", "style": rng.choice(["method", "operator"])}
+        after = list(scope)
+        if op in ("product", "sum"):
+            st["j"] = rng.randrange(len(factors))
+            after += [v for v in factors[st["j"]]["vars"] if v not in after]
+        elif op == "divide":
+            st["g"] = _rand_factor(rng, card, _subset(rng, scope, 0), zero_p=rng.choice([0.0, 0.0, 0.2]))
+        elif op == "scalar":
+            st["c"] = rng.choice(scalars)
+            st["kind"] = rng.choice(["mul", "mul", "add"])
+        elif op in ("marg", "max"):
+            st["S"] = _subset(rng, scope, 0 if mode == "outofplace" else 1, max(1, len(scope) - 1) if mode == "inplace" else None)
+            after = [v for v in scope if v not in st["S"]]
+        elif op == "reduce":
+            Rv = _subset(rng, scope, 0 if mode == "outofplace" else 1, 2)
+            st["R"] = [[v, rng.randrange(card[v])] for v in Rv]
+            after = [v for v in scope if v not in Rv]
+        if mode == "inplace":
+            scope = after
         out.append(st)
     return out
 
@@ -362,7 +468,7 @@ def gen_case(seed, idx, tier):
     if vkind == "str":
         pool = ["a", "b", "c", "d", "e", "f"]
     elif vkind == "word":
-        pool = ["rain", "Sprinkler", "x1", "x10", "_z", "two words"]
+        pool = ["rain", "Sprinkler", "", "x10", "_z", "two words"]          # '' is a (falsy) name too
     elif vkind == "int":
         pool = [0, 1, 2, 3, 7, 11]
     else:
@@ -376,34 +482,50 @@ def gen_case(seed, idx, tier):
             tot *= c
         if tot <= (1200 if big else 576):
             break
-    skind = rng.choice(gen.STATE_KINDS)
-    states = [gen.state_names_for(rng, v, c, skind) for v, c in zip(pool, cards)]
+    if rng.random() < 0.08:                               # one multi-digit cardinality
+        while True:
+            cards = [rng.choice((1, 2, 2, 3)) for _ in pool]
+            cards[rng.randrange(len(cards))] = rng.choice((10, 11, 12))
+            tot = 1
+            for c in cards:
+                tot *= c
+            if tot <= (1200 if big else 576):
+                break
+    skind = rng.choice(STATE_KINDS)
+    states = [_states_for(rng, v, c, skind) for v, c in zip(pool, cards)]
     card = dict(zip(pool, cards))
+    profile = rng.choice(PROFILES)
+    scalars = SCALARS if profile in ("normal", "ints", "dups") else SCALARS_NONNEG
+    # "extreme" magnitudes (1e-250 .. 1e250) go into f0 only: every finite expression then stays finite in any
+    # evaluation order, so the reference stays order-independent
+    pf = (lambda i: profile if (profile != "extreme" or i == 0) else "normal")
     rel = rng.choice(["disjoint", "nested", "nested", "overlap", "overlap", "equal", "empty", "random", "random"])
     sa, sb = _pair_scopes(rng, pool, rel, mx)
-    f0 = _rand_factor(rng, card, sa)
-    f1 = _rand_factor(rng, card, sb)
+    f0 = _rand_factor(rng, card, sa, profile=pf(0))
+    f1 = _rand_factor(rng, card, sb, profile=pf(1))
     # f2: a divisor for f0 (scope inside f0's), zeros so that 0/0 and x/0 both occur
-    f2 = _rand_factor(rng, card, _subset(rng, f0["vars"], 0), zero_p=rng.choice([0.0, 0.2, 0.4]))
+    f2 = _rand_factor(rng, card, _subset(rng, f0["vars"], 0), zero_p=rng.choice([0.0, 0.2, 0.4]), profile=pf(2))
     if rng.random() < 0.35:
         _force_zero_over_zero(rng, card, f0, f2)
-    f3 = _rand_factor(rng, card, _subset(rng, pool, 0, mx))
+    f3 = _rand_factor(rng, card, _subset(rng, pool, 0, mx), profile=pf(3))
     factors = [f0, f1, f2, f3]
     union = [v for v in pool if any(v in f["vars"] for f in factors)]
     ks = sorted(rng.sample(range(4), rng.randint(1, 4)))
-    if rng.random() < 0.15:
+    if rng.random() < 0.15 and profile != "extreme":
         ks.append(rng.choice(ks))                       # the same factor twice in an n-ary product
     nun = [v for v in pool if any(v in factors[k]["vars"] for k in ks)]
     return {
-        "vkind": vkind, "skind": skind, "rel": rel,
+        "vkind": vkind, "skind": skind, "rel": rel, "profile": profile,
+        "implicit_names": skind == "id" and rng.random() < 0.5,        # build without state_names (default labels)
         "pool": [[v, s] for v, s in zip(pool, states)],
         "factors": factors,
         "unary": [_gen_unary(rng, card, f0), _gen_unary(rng, card, f1)],
         "eq": [_gen_eq(rng, card, f0), _gen_eq(rng, card, f3)],
-        "scalars": [rng.choice(SCALARS), rng.choice(SCALARS)],
+        "scalars": [rng.choice(scalars), rng.choice(scalars)],
         "nary": {"ks": ks, "out": _subset(rng, nun, 0), "out2": _subset(rng, union, 0),
                  "assoc": rng.sample(range(4), 3)},
-        "chain": _gen_chain(rng, pool, card, factors, steps=9 if big else 6),
+        "chain": _gen_chain(rng, pool, card, factors, steps=9 if big else 6, scalars=scalars),
+        "reuse": _gen_reuse(rng, pool, card, factors, 16 if big else 10, scalars),
     }
 
 
@@ -527,20 +649,46 @@ def _fp_diff(a, b):
     return [n for n, x, y in zip(names, a, b) if x != y]
 
 
+def _close_rel(a, b, rtol=1e-9):
+    """named_close with a purely RELATIVE tolerance (tables whose magnitudes are far from 1; all values >= 0,
+    so nothing cancels and 1e-9 relative is ~1e6 ulp of slack)."""
+    if set(a) != set(b):
+        return f"assignment sets differ: unexpected {list(set(a) - set(b))[:2]}, missing {list(set(b) - set(a))[:2]}"
+    for k in a:
+        x, y = a[k], b[k]
+        if x == y or (math.isnan(x) and math.isnan(y)):
+            continue
+        if math.isnan(x) or math.isnan(y) or abs(x - y) > rtol * max(abs(x), abs(y)):
+            return f"{sorted(k, key=repr)}: got {x!r}, expected {y!r}"
+    return None
+
+
 class Runner:
-    def __init__(self, ctx, states):
+    def __init__(self, ctx, states, profile="normal", implicit=False):
         self.ctx = ctx
         self.states = states            # {var: [names]} of the pool
         self.totals = []
         self.ops = 0
+        self.profile = profile
+        self.relative = profile in ("mixed", "tiny", "huge", "extreme")
+        self.implicit = implicit
+
+    def close(self, a, b):
+        return _close_rel(a, b) if self.relative else oracle.named_close(a, b, **self.ctx.tol())
 
     # -- building real factors
     def mk(self, A, vars_=None, states=None):
         from pgmpy.factors.discrete import DiscreteFactor
         vars_ = list(A.states) if vars_ is None else list(vars_)
         st = states or A.states
-        return DiscreteFactor(vars_, [len(st[v]) for v in vars_], np.array(o_values(A, vars_, st), dtype=float),
-                              state_names={v: list(st[v]) for v in vars_})
+        vals = o_values(A, vars_, st)
+        if self.profile == "ints" and all(float(x).is_integer() for x in vals):
+            vals = [int(x) for x in vals]                   # python ints straight into the constructor
+        else:
+            vals = np.array(vals, dtype=float)
+        if self.implicit and all(list(st[v]) == list(range(len(st[v]))) for v in vars_):
+            return DiscreteFactor(vars_, [len(st[v]) for v in vars_], vals)       # default labels 0..k-1
+        return DiscreteFactor(vars_, [len(st[v]) for v in vars_], vals, state_names={v: list(st[v]) for v in vars_})
 
     # -- judging one returned / updated factor
     def judge(self, got, exp, label, op, **detail):
@@ -566,11 +714,11 @@ class Runner:
         except Exception as e:
             return ctx.violation(f"c04:malformed-result:{op}", f"{label}: cannot read result: {type(e).__name__}: {e}",
                                  **detail)
-        diff = oracle.named_close(a, exp.tab, **ctx.tol())
+        diff = self.close(a, exp.tab)
         if diff:
             return ctx.violation(f"c04:wrong-{op}", f"{label}: {diff}", **detail)
         ctx.ok()
-        self.totals.append(round(math.fsum(x for x in a.values() if math.isfinite(x)), 9))
+        self.totals.append(round(_fsum(x for x in a.values() if math.isfinite(x)), 9))
         return True
 
     def unchanged(self, before, label, op, phase=""):
@@ -685,17 +833,32 @@ def _named(states, pairs):
 
 
 # ------------------------------------------------------------------------------ batteries
+def _as_form(vs, form):
+    """the `variables` argument is documented as "list, array-like": list / tuple / set / numpy array of names"""
+    vs = list(vs)
+    if form == "tuple":
+        return tuple(vs)
+    if form == "set":
+        return set(vs)
+    if form == "array" and vs and all(isinstance(v, str) for v in vs):
+        return np.array(vs)
+    return vs
+
+
 def unary_battery(R, A, u, tag):
     S, cut, M = list(u["S"]), u["cut"], list(u["M"])
     red = _named(R.states, [tuple(p) for p in u["R"]])
+    forms = u.get("forms", ["list"] * 4)
     F = R.mk(A)
-    for op, S_ in (("marginalize", S), ("maximize", M)):
+    for n, (op, S_) in enumerate((("marginalize", S), ("maximize", M))):
         exp = o_eliminate(A, S_, "sum" if op == "marginalize" else "max")
         cl = (lambda S_=S_: _max_classify(R, A, S_)) if op == "maximize" else None
-        R.apply(op, f"{tag}.{op}({S_!r}, inplace=False)", lambda: getattr(F, op)(list(S_), inplace=False), exp,
-                keep=[("self", F)], classify=cl, S=S_)
+        f1, f2 = forms[2 * n], forms[2 * n + 1]
+        R.ctx.feature(f"variables-as:{f1}")
+        R.apply(op, f"{tag}.{op}({f1} {S_!r}, inplace=False)", lambda: getattr(F, op)(_as_form(S_, f1), inplace=False),
+                exp, keep=[("self", F)], classify=cl, S=S_)
         G = R.mk(A)
-        R.apply(op, f"{tag}.{op}({S_!r}, inplace=True)", lambda: getattr(G, op)(list(S_)), exp, target=G,
+        R.apply(op, f"{tag}.{op}({f2} {S_!r}, inplace=True)", lambda: getattr(G, op)(_as_form(S_, f2)), exp, target=G,
                 classify=cl, S=S_)
     # sum-out order: S in two steps, both orders, must equal the one-step answer (judged against the oracle)
     if len(S) >= 2:
@@ -722,7 +885,7 @@ def unary_battery(R, A, u, tag):
     R.apply("reduce", f"{tag}.reduce({red!r}, inplace=False)", lambda: F.reduce(list(red), inplace=False), exp,
             keep=[("self", F)], red=red)
     G = R.mk(A)
-    R.apply("reduce", f"{tag}.reduce({red!r}, inplace=True)", lambda: G.reduce(list(red)), exp, target=G, red=red)
+    R.apply("reduce", f"{tag}.reduce(tuple {red!r}, inplace=True)", lambda: G.reduce(tuple(red)), exp, target=G, red=red)
     # reduce and marginalise commute (disjoint variable sets)
     S2 = list(u["S2"])
     exp = o_eliminate(o_reduce(A, red), S2, "sum")
@@ -740,7 +903,7 @@ def unary_battery(R, A, u, tag):
         R.apply("reduce-marginalize", f"{tag} {order}: reduce({red!r}) / marginalize({S2!r})", fin, exp,
                 keep=[("intermediate", mid)])
     # normalize
-    if A.finite() and A.total() > 0:
+    if A.finite() and A.total() > 0 and math.isfinite(A.total()):
         exp = o_normalize(A)
         R.apply("normalize", f"{tag}.normalize(inplace=False)", lambda: F.normalize(inplace=False), exp, keep=[("self", F)])
         G = R.mk(A)
@@ -786,7 +949,7 @@ def _empty_scope_classify(R, A, what, B=None):
     if R.ctx.failed(r):
         return None
     try:
-        ok = oracle.named_close(oracle.factor_named(r, to_np), exp.tab, **R.ctx.tol()) is None
+        ok = R.close(oracle.factor_named(r, to_np), exp.tab) is None
     except Exception:
         ok = False
     return f"c04:{what}-empty-scope" if ok else None
@@ -808,7 +971,7 @@ def _max_classify(R, A, S):
         if R.ctx.failed(r):
             return None
         try:
-            ok = oracle.named_close(oracle.factor_named(r, to_np), A.tab, **R.ctx.tol()) is None
+            ok = R.close(oracle.factor_named(r, to_np), A.tab) is None
         except Exception:
             ok = False
         return "c04:maximize-nothing-torch" if ok else None
@@ -936,6 +1099,10 @@ def eq_battery(R, A, e, tag):
         B.tab[kc] = B.tab[kc] + d
         R.eq(F, R.mk(B, e["axis"], pst), A, B, f"{tag} == permuted with {name} ({d:+g})")
         R.eq(R.mk(B, e["axis"], pst), F, B, A, f"permuted with {name} ({d:+g}) == {tag}")
+    B = OF(dict(A.states), dict(A.tab))
+    B.tab[kc] = B.tab[kc] * 1.03 + 1e-3                 # outside atol + rtol*|x| whatever the magnitude of x
+    R.eq(F, R.mk(B, e["axis"], pst), A, B, f"{tag} == permuted with one cell off by 3% + 1e-3")
+    R.eq(R.mk(B, e["axis"], pst), F, B, A, f"permuted with one cell off by 3% + 1e-3 == {tag}")
     if vs:
         v = vs[e["rvar"]]
         # a renamed state
@@ -970,6 +1137,7 @@ def chain_battery(R, As, chain):
         op, inplace = st["op"], st["inplace"]
         label = f"history step {n}: {op}"
         keep = []
+        classify = None
         if op in ("product", "sum"):
             j = st["j"]
             oexp = (o_mul if op == "product" else o_add)(ocur, As[j])
@@ -987,9 +1155,7 @@ def chain_battery(R, As, chain):
             oexp = o_divide(ocur, B)
             G = R.mk(B, st["g"]["vars"])
             keep = [("divisor", G)]
-            if not ocur.states:
-                ctx.note("history-divide-on-empty-scope-skipped")     # covered (and classified) by the binary battery
-                continue
+            classify = (lambda ocur=ocur, B=B: _empty_scope_classify(R, ocur, "divide", B))
             if inplace:
                 fn = (lambda: cur.divide(G))
             elif st["style"] == "operator":
@@ -1018,20 +1184,174 @@ def chain_battery(R, As, chain):
             oexp, kind = o_reduce(ocur, red), "reduce"
             fn = (lambda: cur.reduce(red)) if inplace else (lambda: cur.reduce(red, inplace=False))
         else:
-            if not (ocur.total() > 0):
+            if not (ocur.total() > 0 and math.isfinite(ocur.total())):
                 continue
             oexp, kind = o_normalize(ocur), "normalize"
             fn = (lambda: cur.normalize()) if inplace else (lambda: cur.normalize(inplace=False))
         if inplace:
-            res = R.apply(kind, label + " (in place)", fn, oexp, keep=keep, target=cur, step=st)
+            res = R.apply(kind, label + " (in place)", fn, oexp, keep=keep, target=cur, classify=classify, step=st)
         else:
-            res = R.apply(kind, label, fn, oexp, keep=keep + [("self", cur)], alias=False, step=st)
+            res = R.apply(kind, label, fn, oexp, keep=keep + [("self", cur)], alias=False, classify=classify, step=st)
         if res is None:
             break                               # already reported; the rest of the history is meaningless
         cur, ocur = res, oexp
     # the operands of the whole history are still what they were
     for j, (F, A) in enumerate(zip(Fs, As)):
         R.judge(F, A, f"operand f{j} after the history", "operand-after-history")
+
+
+def _step_call(R, cur, ocur, st, Fs, As):
+    """(callable, oracle result, op key, operands that must stay unchanged) for one step on `cur`, or None to skip."""
+    op, inplace, style = st["op"], st["inplace"], st["style"]
+    if op in ("product", "sum"):
+        G = Fs[st["j"]]
+        oexp = (o_mul if op == "product" else o_add)(ocur, As[st["j"]])
+        if inplace:
+            fn = (lambda: getattr(cur, op)(G))
+        elif style == "operator":
+            fn = (lambda: cur * G) if op == "product" else (lambda: cur + G)
+        else:
+            fn = (lambda: getattr(cur, op)(G, inplace=False))
+        return fn, oexp, op, [("right", G)]
+    if op == "divide":
+        B = o_from_values([v for v in st["g"]["vars"] if v in ocur.states] if set(st["g"]["vars"]) <= set(ocur.states)
+                          else [], R.states, st["g"]["values"] if set(st["g"]["vars"]) <= set(ocur.states) else [1.0])
+        G = R.mk(B, list(B.states))
+        fn = (lambda: cur.divide(G)) if inplace else ((lambda: cur / G) if style == "operator"
+                                                       else (lambda: cur.divide(G, inplace=False)))
+        return fn, o_divide(ocur, B), "divide", [("divisor", G)], (lambda: _empty_scope_classify(R, ocur, "divide", B))
+    if op == "scalar":
+        c = st["c"]
+        if st["kind"] == "mul":
+            fn = (lambda: cur.product(c)) if inplace else ((lambda: c * cur) if style == "operator"
+                                                            else (lambda: cur.product(c, inplace=False)))
+            return fn, o_scalar(ocur, c, lambda x, y: x * y), "product", []
+        fn = (lambda: cur.sum(c)) if inplace else ((lambda: cur + c) if style == "operator"
+                                                    else (lambda: cur.sum(c, inplace=False)))
+        return fn, o_scalar(ocur, c, lambda x, y: x + y), "sum", []
+    if op in ("marg", "max"):
+        S = [v for v in st["S"] if v in ocur.states]
+        meth = "marginalize" if op == "marg" else "maximize"
+        fn = (lambda: getattr(cur, meth)(S)) if inplace else (lambda: getattr(cur, meth)(S, inplace=False))
+        return fn, o_eliminate(ocur, S, "sum" if op == "marg" else "max"), meth, []
+    if op == "reduce":
+        red = _named(R.states, [tuple(p) for p in st["R"] if p[0] in ocur.states])
+        fn = (lambda: cur.reduce(red)) if inplace else (lambda: cur.reduce(red, inplace=False))
+        return fn, o_reduce(ocur, red), "reduce", []
+    if not (ocur.total() > 0 and math.isfinite(ocur.total())):
+        return None
+    fn = (lambda: cur.normalize()) if inplace else (lambda: cur.normalize(inplace=False))
+    return fn, o_normalize(ocur), "normalize", []
+
+
+def observe(R, X, oX, what, label):
+    """Read-only members between the algebra calls.  Only scope / cardinalities (which the statement names) and ==
+    are judged; the others are run for their side effects: none of them may change the factor."""
+    from rv.build import to_np
+    ctx = R.ctx
+    before = [("self", X, _fp(X))]
+    vs = list(oX.states)
+    if what == "scope":
+        r = ctx.call(lambda: list(X.scope()))
+        if ctx.failed(r):
+            ctx.violation(f"c04:exception:{r.type}@{r.where}", f"{label}: scope() raised {r!r}")
+        else:
+            ctx.expect(len(r) == len(vs) and set(r) == set(vs), "c04:wrong-scope:observer",
+                       f"{label}: scope() = {r!r}, expected the variables {vs!r}")
+    elif what == "get_cardinality":
+        r = ctx.call(lambda: X.get_cardinality(list(vs)))
+        if ctx.failed(r):
+            ctx.violation(f"c04:exception:{r.type}@{r.where}", f"{label}: get_cardinality raised {r!r}")
+        else:
+            try:
+                got = {k: int(c) for k, c in r.items()}
+            except Exception:
+                got = None
+            ctx.expect(got == {v: len(oX.states[v]) for v in vs}, "c04:cardinality:observer",
+                       f"{label}: get_cardinality = {r!r}, expected {[(v, len(oX.states[v])) for v in vs]!r}")
+    elif what == "assignment":
+        n = len(oX.tab)
+        idxs = sorted({0, n // 2, n - 1})
+        r = ctx.call(lambda: X.assignment(list(idxs)))
+        if ctx.failed(r):
+            ctx.note(f"observer-raised:assignment:{r.type}")
+        else:
+            try:
+                flat = np.asarray(to_np(X.values)).ravel()
+                bad = [i for i, asg in zip(idxs, r)
+                       if _close_rel({0: float(flat[i])}, {0: oX.tab[frozenset((v, s) for v, s in asg)]}, 1e-6)]
+                ctx.note("observer-mismatch:assignment" if bad else "observer-ok:assignment")
+            except Exception:
+                ctx.note("observer-mismatch:assignment")
+    elif what == "get_value":
+        if vs and all(isinstance(v, str) for v in vs):
+            key = sorted(oX.tab, key=repr)[len(oX.tab) // 2]
+            r = ctx.call(lambda: X.get_value(**dict(key)))
+            if ctx.failed(r):
+                ctx.note(f"observer-raised:get_value:{r.type}")
+            else:
+                try:
+                    ok = _close_rel({0: float(r)}, {0: oX.tab[key]}, 1e-6) is None
+                except Exception:
+                    ok = False
+                ctx.note("observer-ok:get_value" if ok else "observer-mismatch:get_value")
+    elif what == "str":
+        for f in (str, repr):
+            r = ctx.call(lambda: f(X))
+            if ctx.failed(r):
+                ctx.note(f"observer-raised:{f.__name__}:{r.type}")
+    elif what == "hash":
+        r = ctx.call(lambda: hash(X))
+        if ctx.failed(r):
+            ctx.note(f"observer-raised:hash:{r.type}")
+    else:                                   # == against a freshly built equal factor in another axis order
+        order = list(reversed(vs))
+        R.eq(X, R.mk(oX, order), oX, oX, f"{label}: == fresh copy with axes {order!r}")
+    R.drain_invariant(label)
+    for name, obj, fb in before:
+        fa = _fp(obj)
+        if fa != fb:
+            ctx.violation(f"c04:observer-modified:{what}", f"{label}: {what} changed the factor: {_fp_diff(fb, fa)}")
+        else:
+            ctx.ok()
+
+
+def reuse_battery(R, As, steps):
+    """One object through a long sequence (see _gen_reuse).  Every answer is judged against the reference for THAT
+    call; results of earlier out-of-place calls are re-read after every later in-place call on their source."""
+    Fs = [R.mk(A) for A in As]
+    X, oX = R.mk(As[0]), As[0]
+    kept = []
+    for n, st in enumerate(steps):
+        if not oX.finite():
+            break
+        label = f"one-object sequence step {n}"
+        if st["mode"] == "observe":
+            R.ctx.feature("observer:" + st["what"])
+            observe(R, X, oX, st["what"], f"{label}: observer {st['what']}")
+            continue
+        built = _step_call(R, X, oX, st, Fs, As)
+        if built is None:
+            continue
+        fn, oexp, kind, keep = built[:4]
+        classify = built[4] if len(built) > 4 else None
+        label += f": {st['op']}"
+        if st["inplace"]:
+            if R.apply(kind, label + " (in place)", fn, oexp, keep=keep, target=X, classify=classify, step=st) is None:
+                break
+            oX = oexp
+            for (r, o, l) in kept:
+                R.judge(r, o, f"result of [{l}] re-read after [{label}] on its source", "result-after-later-inplace-call")
+        else:
+            res = R.apply(kind, label + " (out of place)", fn, oexp, keep=keep + [("self", X)], alias=False,
+                          classify=classify, step=st)
+            if res is not None and oexp.finite():
+                kept.append((res, oexp, label))
+    R.judge(X, oX, "the object at the end of its sequence", "object-after-sequence")
+    for (r, o, l) in kept:
+        R.judge(r, o, f"result of [{l}] re-read at the end of the sequence", "result-after-later-inplace-call")
+    for j, (F, A) in enumerate(zip(Fs, As)):
+        R.judge(F, A, f"partner f{j} after the one-object sequence", "operand-after-history")
 
 
 def fdict_battery(R, As):
@@ -1107,15 +1427,23 @@ def run_case(spec, ctx):
     if ctx.backend.startswith("torch"):
         # DiscreteFactor.__init__ builds torch.Tensor(values) (float32) before casting to the configured dtype, so
         # under torch the inputs are restricted to float32-representable numbers; the algebra itself is float64.
+        def q1(x):
+            if x and not (1e-30 <= abs(x) <= 1e30):            # keep inside float32's exponent range
+                x = math.copysign(10.0 ** max(-30, min(30, math.log10(abs(x)))), x)
+            return float(np.float32(x))
+
         def q(f):
-            return dict(f, values=[float(np.float32(x)) for x in f["values"]])
+            return dict(f, values=[q1(x) for x in f["values"]])
         spec = dict(spec, factors=[q(f) for f in spec["factors"]],
-                    chain=[dict(st, g=q(st["g"])) if "g" in st else st for st in spec["chain"]])
+                    chain=[dict(st, g=q(st["g"])) if "g" in st else st for st in spec["chain"]],
+                    reuse=[dict(st, g=q(st["g"])) if "g" in st else st for st in spec["reuse"]])
         ctx.feature("torch-inputs-float32-representable")
     As = [o_from_values(f["vars"], states, f["values"]) for f in spec["factors"]]
-    R = Runner(ctx, states)
+    R = Runner(ctx, states, spec.get("profile", "normal"), spec.get("implicit_names", False))
     ctx.nontrivial = max(len(A.states) for A in As) >= 2 and max(len(s) for s in states.values()) >= 2
-    for ft in (f"rel:{spec['rel']}", f"vars:{spec['vkind']}", f"states:{spec['skind']}",
+    for ft in (f"rel:{spec['rel']}", f"vars:{spec['vkind']}", f"states:{spec['skind']}", f"values:{R.profile}",
+               "implicit-state-names" if R.implicit else None,
+               "card>=10" if any(len(s) >= 10 for s in states.values()) else None,
                "empty-scope" if any(not A.states for A in As) else None,
                "card1" if any(len(s) == 1 for A in As for s in A.states.values()) else None,
                "zeros" if any(x == 0 for A in As for x in A.tab.values()) else None):
@@ -1131,7 +1459,8 @@ def run_case(spec, ctx):
     eq_battery(R, As[0], spec["eq"][0], "f0")
     eq_battery(R, As[3], spec["eq"][1], "f3")
     chain_battery(R, As, spec["chain"])
-    if ctx.backend == "numpy":
+    reuse_battery(R, As, spec["reuse"])
+    if ctx.backend == "numpy" and not R.relative:            # FactorDict.__sub__ cancels: absolute-tolerance cases only
         fdict_battery(R, As)
 
     R.drain_invariant()
